@@ -214,6 +214,12 @@ def harnesses(tier, seed):
                                      "extended reals: NaN/+-inf exact, finite rounding and overflow not modelled",
                                      "regulariser family h(x) = lam*sum|x_i - c_i| (lam, c symbolic)"],
                         nproc=1, max_replays=3))
+    # the controller's own writers of the per-point arrays and of the saved slot (samples averaged over the rows actually filled,
+    # budget ending at any sample): geometry step, soft restart, extra regression steps - one action from any valid state
+    from .. import step
+    for h in step.action_harnesses(tier, seed, 'C17'):
+        if tier != 'quick' or h.name.startswith(('action[geometry_step', 'action[momentum', 'action[extra', 'action[soft_restart,n=1')):
+            hs.append(h)
     return hs
 
 
